@@ -150,7 +150,8 @@ def generate(tape, tier="quick"):
         if last[ci] is None or last[ci] < t:
             events.append(["PULL", ci, t])
     sc = {"engine": "X", "slot": slot, "grid": g, "masked": masked, "n_cons": n_cons, "events": events,
-          "p": tape.choice(STEP_POS), "via_composition": tape.chance(1, 3), "units": tape.choice(["m", "mm/d"])}
+          "p": tape.choice(STEP_POS), "via_composition": tape.chance(1, 3), "slot_limit": tape.chance(1, 2),
+          "units": tape.choice(["m", "mm/d"])}
     if tier == "thorough" and tape.chance(1, 3):
         sc["fault"] = {"op": tape.choice(["save", "load", "remove"]), "nth": tape.rng_int(1, 6)}
     return sc
@@ -206,7 +207,8 @@ def run_once(sc, limit, root, fault=None):
     M = MGrid(g) if g else None
     base = M.field([1.0, 10.0, 100.0][: M.dim + 1]) if M else np.float64(5.0)
     maskarr = (np.round(base * 3.7) % 3 == 0) if (M is not None and sc["masked"]) else None
-    os.makedirs(root, exist_ok=True)
+    if not sc["via_composition"]:
+        os.makedirs(root, exist_ok=True)       # a Composition creates its memory location itself
     seam = Seam(root, fault)
     series, problems = [], []
     err = None
@@ -216,8 +218,13 @@ def run_once(sc, limit, root, fault=None):
         try:
             if sc["via_composition"]:
                 prod = Prod(info)
-                comp = Composition([prod], print_log=False, log_level=50, slot_memory_limit=limit,
-                                   slot_memory_location=root)
+                if sc.get("slot_limit"):
+                    # documented pattern: location from the composition, limit set on the individual slot
+                    comp = Composition([prod], print_log=False, log_level=50, slot_memory_location=root)
+                    prod.outputs["o"].memory_limit = limit
+                else:
+                    comp = Composition([prod], print_log=False, log_level=50, slot_memory_limit=limit,
+                                       slot_memory_location=root)
                 out = prod.outputs["o"]
             else:
                 out = Output(name="o", info=info)
@@ -255,7 +262,7 @@ def run_once(sc, limit, root, fault=None):
                 spilled = [x[1] for x in out.data if isinstance(x[1], str)]
                 for ad in ads:
                     spilled += [x[1] for x in ad.data if isinstance(x[1], str)]
-                present = sorted(os.listdir(root))
+                present = sorted(os.listdir(root)) if os.path.isdir(root) else []
                 if sorted(os.path.basename(p) for p in spilled) != present:
                     problems.append(("spill-leftover", f"event {ei}: files on disk {present} vs referenced spilled entries "
                                                         f"{sorted(os.path.basename(p) for p in spilled)}"))
@@ -266,7 +273,7 @@ def run_once(sc, limit, root, fault=None):
                 out.finalize()
             for ad in ads:
                 ad.finalize()
-            left = sorted(os.listdir(root))
+            left = sorted(os.listdir(root)) if os.path.isdir(root) else []
             if left:
                 problems.append(("spill-leftover", f"after finalisation {len(left)} file(s) remain: {left[:3]}"))
         except Exception as ex:
